@@ -22,7 +22,12 @@ use num_traits::Signed;
 use std::io::Write;
 use std::sync::Arc;
 use std::time::Duration;
+#[cfg(not(xray_verif))]
 use std::{iter, rc, thread};
+#[cfg(xray_verif)]
+use crate::verif::thread;
+#[cfg(xray_verif)]
+use std::{iter, rc};
 
 use super::core::xerr;
 
